@@ -232,7 +232,7 @@ def run(ck):
                 if cls == "MetricEvaluator":
                     for k in ("attr", "item"):
                         a = acc[k]
-                        ck.check(isinstance(a, VTens) and a.shape == (2,), "C17.R2", cls + ":__getattr__/__getitem__ " + k, m.site(), "per-name value array has shape %s after two evaluations" % (getattr(a, "shape", None),))
+                        ck.check(shape_is(a, (2,)), "C17.R2", cls + ":__getattr__/__getitem__ " + k, m.site(), "per-name value array has shape %s after two evaluations" % (getattr(a, "shape", None),))
                 else:
                     for k in ("attr", "item"):
                         a = acc[k]
@@ -383,6 +383,15 @@ def run(ck):
             fc = _format_calls(it)
             ck.check(any(a and isinstance(a[0], VConst) and a[0].value == "initial" for a in fc), "C17.R4", "ModelSaver/initial:file named 'initial'", ms.find_method("on_train_start").site(),
                      "the initial save is not named with the word 'initial'")
+            # the metadata callable is documented as f(nn_state, epoch): for the initial save the epoch is a number too (0: before the first
+            # epoch), not the file label
+            mc = [u for u in getattr(it, "opaque_log", []) if u[0] == "meta_fn"]
+            if mc and p.outcome == "return":
+                a1 = mc[0][1][1] if len(mc[0][1]) == 2 else None
+                isnum = (isinstance(a1, VConst) and isinstance(a1.value, int) and not isinstance(a1.value, bool)) or (isinstance(a1, VNum) and a1.kind == "int")
+                ck.check(len(mc) == 1 and getattr(mc[0][1][0], "inst", 0) is getattr(p.value, "inst", 1) and isnum, "C17.R4", "ModelSaver/initial:callable gets (nn_state, <epoch number>)", ms.find_method("on_train_start").site(),
+                         "for the initial save the metadata callable is called with %r as its epoch argument (a number is what callables written for f(nn_state, epoch) expect)" % (a1,),
+                         key="C17.R4|ModelSaver|initial metadata epoch")
     ck.require_min("C17.R1", 30)
     ck.require_min("C17.R2", 24)
     ck.require_min("C17.R3", 4)
